@@ -163,6 +163,9 @@ type scenario struct {
 	// SameRemote: the virtual connections share one remote ip:port (a scanner with a fixed source port)
 	// and differ in the local port only
 	SameRemote bool `json:"same_remote,omitempty"`
+	// Shadow: a second agent session on the same listener announces a connection with the same address pair as
+	// this session's first one (two sensors behind different NATs hit by one scanner) and sends data of its own
+	Shadow bool `json:"shadow_session,omitempty"`
 	Kind       string `json:"kind"`
 }
 
@@ -257,6 +260,9 @@ func scenarios(tier string, seed int64) []scenario {
 		if r.Chance(1, 6) {
 			sc.SameRemote = true
 			sc.Kind += "-same-remote"
+		} else if r.Chance(1, 5) {
+			sc.Shadow = true
+			sc.Kind += "-shadow-session"
 		}
 		// sprinkle control messages that must not disturb anything
 		if r.Chance(1, 3) {
@@ -439,6 +445,13 @@ func runScenario(k int, sc scenario, listen string, key []byte) scnObs {
 			bmu.Unlock()
 		}
 	}()
+	var shadow *agentConn
+	var shadowAddr []byte
+	defer func() {
+		if shadow != nil {
+			shadow.c.Close()
+		}
+	}()
 	want := make([][]byte, sc.Conns)
 	seq := make([]int, sc.Conns)
 	eofSent := make([]bool, sc.Conns)
@@ -449,6 +462,30 @@ func runScenario(k int, sc scenario, listen string, key []byte) scnObs {
 			l, r := addrOfSc(sc, k, m.Conn, false)
 			a.send(tHello, encAddr(encAddr(nil, l.Proto, l.IP, l.Port), r.Proto, r.IP, r.Port))
 			helloSent[m.Conn] = true
+			if sc.Shadow && shadow == nil && !sc.Park {
+				time.Sleep(3 * time.Millisecond) // this session's connection is announced first
+				if sc2, err := libdisco.Dial("tcp", listen, &libdisco.Config{HandshakePattern: libdisco.Noise_NK, RemoteKey: key}); err == nil {
+					shadow = &agentConn{c: sc2}
+					hs2 := binary.LittleEndian.AppendUint16(nil, 1)
+					for _, s := range []string{"v-test", "abc123", "abc123def", "shadow-" + fmt.Sprint(k)} {
+						hs2 = encData(hs2, []byte(s))
+					}
+					shadow.send(tHS, hs2)
+					sc2.SetReadDeadline(time.Now().Add(5 * time.Second))
+					shadow.recv()
+					go func() { // whatever comes back on the shadow session is its own business
+						for {
+							sc2.SetReadDeadline(time.Now().Add(30 * time.Second))
+							if _, err := shadow.recv(); err != nil {
+								return
+							}
+						}
+					}()
+					shadowAddr = encAddr(encAddr(nil, l.Proto, l.IP, l.Port), r.Proto, r.IP, r.Port)
+					shadow.send(tHello, shadowAddr)
+					shadow.send(tRWTCP, encData(append([]byte(nil), shadowAddr...), []byte("SHADOW|"+strings.Repeat("s", 20))))
+				}
+			}
 			if sc.Park {
 				deadline := time.Now().Add(3 * time.Second)
 				for atomic.LoadInt64(&parkHits) == 0 && time.Now().Before(deadline) {
@@ -497,7 +534,7 @@ func runScenario(k int, sc scenario, listen string, key []byte) scnObs {
 			lw, r := addrOfSc(sc, k, ci, false)
 			var call *lab.StubCall
 			for i := range calls {
-				if calls[i].Remote == (&net.TCPAddr{IP: r.IP, Port: r.Port}).String() && calls[i].Local == (&net.TCPAddr{IP: lw.IP, Port: lw.Port}).String() {
+				if calls[i].Remote == (&net.TCPAddr{IP: r.IP, Port: r.Port}).String() && calls[i].Local == (&net.TCPAddr{IP: lw.IP, Port: lw.Port}).String() && !bytes.HasPrefix(calls[i].Data, []byte("SHADOW|")) {
 					call = &calls[i]
 				}
 			}
@@ -533,8 +570,8 @@ func runScenario(k int, sc scenario, listen string, key []byte) scnObs {
 		for time.Now().Before(dl) {
 			all := true
 			for _, call := range lab.Stubs.Snapshot() {
-				if call.Net == "tcp" && !call.Done {
-					all = false
+				if call.Net == "tcp" && !call.Done && !bytes.HasPrefix(call.Data, []byte("SHADOW|")) {
+					all = false // (the shadow session's connection is its own and stays open)
 				}
 			}
 			if all {
@@ -561,7 +598,7 @@ func runScenario(k int, sc scenario, listen string, key []byte) scnObs {
 		rs := (&net.TCPAddr{IP: r.IP, Port: r.Port}).String()
 		ls := (&net.TCPAddr{IP: l.IP, Port: l.Port}).String()
 		for i := range calls {
-			if calls[i].Remote == rs && calls[i].Local == ls {
+			if calls[i].Remote == rs && calls[i].Local == ls && !bytes.HasPrefix(calls[i].Data, []byte("SHADOW|")) {
 				co.Calls++
 				co.Local, co.Remote = calls[i].Local, calls[i].Remote
 				co.ReadLen = len(calls[i].Data)
